@@ -252,10 +252,9 @@ theorem buildFields_names (cfg : Cfg) : ∀ (fds : FieldDefs) (cfs : Fields),
             split at h
             · exact absurd h (by simp)
             · rename_i idx _
-              by_cases hi : idx < 0
-              · simp [hi] at h
-              · simp only [hi, ↓reduceIte] at h
-                generalize build cfg t _ = rb at h
+              split at h
+              · exact absurd h (by simp)
+              · generalize build cfg t _ = rb at h
                 cases rb with
                 | ok c =>
                   simp only at h
